@@ -55,7 +55,7 @@ HInit ==
 HNext ==
     /\ Len(hist) < HistDepth
     /\ \E r \in HistReqs :
-         \E x \in RunH("outer", MkRq(r.m, PathOfReq(r), hw, r.h, hstack), cache) :
+         \E x \in RunH("outer", MkRq(r.m, PathOfReq(r), hw, r.h, hstack, FALSE), cache) :
             /\ hist' = Append(hist, r)
             /\ hresp' = Append(hresp, x.r)
             /\ cache' = x.cache
@@ -66,7 +66,7 @@ HSpec == HInit /\ [][HNext]_hvars
 HGateInv == \A i \in DOMAIN hresp : C18_Gate(hw, hresp[i].effect)
 HLiveInv == \A i \in DOMAIN hresp : C18_Live(hist[i].m, hist[i].t, hist[i].sps, hresp[i].effect)
 \* the decision does not depend on what the instance served before
-HDetInv == \A i \in DOMAIN hresp : ServeReq(hist[i], hw, hstack) = {hresp[i]}
+HDetInv == \A i \in DOMAIN hresp : ServeReq(hist[i], hw, hstack, FALSE) = {hresp[i]}
 
 HEmitInv ==
     Len(hist) = HistDepth =>
